@@ -1,6 +1,6 @@
 """C15  files are replaced, never edited in place; only named files are touched (DESIGN §4 C15)."""
 from .. import callgraph, cfg, dataflow as df, guards
-from ..common import A, calls_named, calls_to
+from ..common import A, calls_named, calls_to, open_chain_flags
 from ..facts import callee_of
 
 LEVEL = "proof"
@@ -75,8 +75,16 @@ def run(ck):
             continue
         n_tree += 1
         if site.callee.endswith("OpenOptions::open"):
-            ck.violate("C15-R1", inst, "working-tree path opened through OpenOptions (may write in place): %s" % df.show(e), site.where())
-            continue
+            # create(true)+truncate(true)+write(true) (no append) is File::create; create_new(true) cannot hit an existing inode at all
+            d = open_chain_flags(fn, site.term)
+            as_create = d is not None and d.get("append", [0]) == [0] * len(d.get("append", [0])) and \
+                (d.get("create_new") == [1] or (d.get("create") == [1] and d.get("truncate") == [1] and d.get("write") == [1]))
+            if d is not None and d.get("create_new") == [1]:
+                ck.ok("C15-R1", inst, "opened with create_new(true): fails on an existing name, never writes through one", site.where())
+                continue
+            if not as_create:
+                ck.violate("C15-R1", inst, "working-tree path opened through OpenOptions (%s): may write in place: %s" % (d, df.show(e)), site.where())
+                continue
         # path constants: the file existed
         ex_guards = guards.field_guards(fn, "existed")
         disabled = {g["false_edge"] for g in ex_guards}
@@ -134,7 +142,7 @@ def run(ck):
             if site.callee.endswith("set_permissions"):
                 continue
             nprim += 1
-            e = df.operand_expr(smf, site.term["args"][0])
+            e = path_arg_expr(smf, site.term) if site.callee in CREATE_PRIMS else df.operand_expr(smf, site.term["args"][0])
             params = {x[2] for x in df.walk(e) if isinstance(x, tuple) and x and x[0] == "param"}
             consts = [x for x in df.walk(e) if isinstance(x, tuple) and x and x[0] == "const"]
             good = "filename" in params and "base_dir" in df.fields_in(e) and not consts
@@ -192,8 +200,8 @@ def run(ck):
         if site.callee == "std::fs::set_permissions":
             nperm += 1
             e = df.operand_expr(fn, site.term["args"][0])
-            creates = [bb for bb, t, c in calls_named(fn, "std::fs::File::create", "std::fs::File::create_new")
-                       if df.operand_expr(fn, t["args"][0]) == e]
+            creates = [bb for bb, t, c in calls_named(fn, "std::fs::File::create", "std::fs::File::create_new", "std::fs::OpenOptions::open")
+                       if path_arg_expr(fn, t) == e]
             ok = any(cfg.dominates(fn, cb, site.bb) and cb != site.bb for cb in creates)
             ck.require(ok, "C15-R4", "%s in %s" % (site.callee, fn.id),
                        "permissions set by path %s without a dominating creation of that path: the mode of a shared "
@@ -202,7 +210,8 @@ def run(ck):
         if site.callee == "std::fs::File::set_permissions":
             nperm += 1
             e = df.operand_expr(fn, site.term["args"][0])
-            ok = df.mentions_deep(fn, e, lambda x: df.is_call(x, "std::fs::File::create")) or \
+            ok = df.mentions_deep(fn, e, lambda x: df.is_call(x, "std::fs::File::create") or df.is_call(x, "std::fs::File::create_new") or
+                                  df.is_call(x, "std::fs::OpenOptions::open")) or \
                 (fn.kind == "Closure" and isinstance(e, tuple) and e[0] in ("param", "local"))
             ck.require(ok, "C15-R4", "%s in %s" % (site.callee, fn.id),
                        "set_permissions on %s which is not the freshly created handle" % df.show(e), site.where(),
